@@ -56,6 +56,11 @@ def main(prop='C08', flt=r'C08', gens=(2,)):
         n, nseq, div = rel_common.validate(rel_common.ddl_for(2, idx), nseq=150 if TIER == 'quick' else 1500, seed=100 + idx)
         nst += n
         if div: ck.machinery.append('SQL-MODEL-VALIDATION divergence from the real SQLite (schema index %d): %s' % (idx, str(div)[:600]))
+    if 1 in gens:
+        for idx in ([10, 0] if TIER == 'quick' else [0, 1, 3, 7, 9, 10]):
+            n, nseq, div = rel_common.validate_v1(rel_common.ddl_for(1, idx), nseq=80 if TIER == 'quick' else 600, seed=200 + idx)
+            nst += n
+            if div: ck.machinery.append('SQL-MODEL-VALIDATION divergence from the real SQLite (1.x schema index %d): %s' % (idx, str(div)[:600]))
     ck.extra['sql_model_validation'] = {'statements_compared_with_real_sqlite': nst}
     ck.extra['bounds'] = {'histories': 'prefix shapes (%s) of up to 3 crates and 3 tracks, then 1 symbolic operation of any of the 8 kinds on any operand (also removed ones); 2 symbolic operations from '
                                        'the small and the diverging prefix (thorough: 3 from the small one)' % ', '.join(sorted(SHAPES)),
@@ -66,4 +71,4 @@ def main(prop='C08', flt=r'C08', gens=(2,)):
                       'or not but must leave the relation unchanged']
     ck.trusted = ['clang-14 lowering', 'lsx executor', 'lsx/models_rel.py', 'z3']
     ck.finish()
-if __name__ == '__main__': main()
+if __name__ == '__main__': main(gens=(2, 1))
